@@ -556,10 +556,8 @@ class SimCondition(object):
                 k.block(lambda: token[0], deadline, ("cond.wait", id(self)))
         finally:
             if not token[0]:
-                try:
-                    self._waiters.remove(token)
-                except ValueError:
-                    pass
+                # identity, not equality: tokens are lists and [False] == [False]
+                self._waiters[:] = [t for t in self._waiters if t is not token]
             if not k.aborting:
                 if st is not None:
                     self._lock._acquire_restore(st)
